@@ -49,6 +49,9 @@ fn oracle(before: &Obs, after: &Obs, rule_applied: bool) -> Result<(), String> {
     if after.n > after.len {
         return Err(format!("n={} exceeds container length={}", after.n, after.len));
     }
+    if after.len > after.cutoff {
+        return Err(format!("container length {} exceeds the sampler cutoff {} (operators may sit beyond the next sweep)", after.len, after.cutoff));
+    }
     if rule_applied {
         if after.n >= after.cutoff {
             return Err(format!("no free slot after the step: n={} cutoff={}", after.n, after.cutoff));
@@ -278,6 +281,277 @@ fn run_generic(gen: &mut SplitMix64, steps: usize, one_spin: bool, tr: &mut Trac
     );
 }
 
+// ---------------------------------------------------------------------------------------------
+// Histories that mix time steps with the other public calls that touch a cutoff: the raw
+// `swap_manager_and_state` (both directions, unequal cutoffs, partner freshly built / after a growing
+// step / after a non-growing step), `set_cutoff` upwards, `into_qmc()` after k steps.  The C12
+// oracle runs after EVERY public call, per sampler object:
+//   (a) the reported cutoff of an object never decreases,
+//   (b) cutoff >= n (and a free slot survives a swap when both sides had one),
+//   (c) container length <= cutoff (every operator sits below the cutoff of the next sweep),
+//   (d) a swap exchanges the operator counts, a conversion keeps n and does not lower the cutoff.
+// ---------------------------------------------------------------------------------------------
+
+fn obj_oracle(who: &str, cutoff_before: usize, after: &Obs) -> Result<(), String> {
+    let counted = after.occ.iter().filter(|b| **b).count();
+    if counted != after.n {
+        return Err(format!("{}: get_n()={} but {} occupied slots", who, after.n, counted));
+    }
+    if after.cutoff < cutoff_before {
+        return Err(format!("{}: reported cutoff shrank {} -> {}", who, cutoff_before, after.cutoff));
+    }
+    if after.n > after.cutoff {
+        return Err(format!("{}: cutoff {} is smaller than the operator count n = {}", who, after.cutoff, after.n));
+    }
+    if after.len > after.cutoff {
+        return Err(format!("{}: container length {} exceeds the sampler cutoff {} (n = {})", who, after.len, after.cutoff, after.n));
+    }
+    Ok(())
+}
+
+fn emit_swap(site: &str, a0: &Obs, b0: &Obs, a1: &Obs, b1: &Obs) {
+    let mut o = obj_oracle("self", a0.cutoff, a1).and(obj_oracle("other", b0.cutoff, b1));
+    if o.is_ok() && (a1.n != b0.n || b1.n != a0.n) {
+        o = Err(format!("swap did not exchange the operator strings: n {}|{} -> {}|{}", a0.n, b0.n, a1.n, b1.n));
+    }
+    if o.is_ok() && a0.n < a0.cutoff && b0.n < b0.cutoff && (a1.n >= a1.cutoff || b1.n >= b1.cutoff) {
+        o = Err(format!("no free slot after the swap: self n={} cutoff={}, other n={} cutoff={}", a1.n, a1.cutoff, b1.n, b1.cutoff));
+    }
+    emit(
+        a0.cutoff != b0.cutoff,
+        &format!("swap {} {} {} {} {}", site, a0.cutoff, bits(&a0.occ), b0.cutoff, bits(&b0.occ)),
+        &format!("{} {} {} {} {} {}", a1.cutoff, a1.len, a1.n, b1.cutoff, b1.len, b1.n),
+        Some(o),
+    );
+}
+
+fn emit_convert(nv: usize, g0: &Obs, q1: &Obs) {
+    let mut o = obj_oracle("converted", g0.cutoff, q1);
+    if o.is_ok() && q1.n != g0.n {
+        o = Err(format!("into_qmc changed the operator count {} -> {}", g0.n, q1.n));
+    }
+    if o.is_ok() && q1.len < g0.len {
+        o = Err(format!("into_qmc shrank the container {} -> {}", g0.len, q1.len));
+    }
+    emit(g0.n > 0, &format!("convert {} {} {}", nv, g0.cutoff, bits(&g0.occ)), &format!("{} {} {}", q1.cutoff, q1.len, q1.n), Some(o));
+}
+
+/// one Ising `timestep` with the step oracle; false if it panicked
+fn hist_step_g(g: &mut G, beta: f64, label: &str, tr: &mut Tracker) -> bool {
+    let before = obs_g(g);
+    match catch(|| {
+        g.timestep(beta);
+    }) {
+        Ok(()) => {
+            let after = obs_g(g);
+            emit_step(label, &before, &after, tr);
+            true
+        }
+        Err(p) => {
+            emit(true, &format!("step {} {} {} {}", label, before.cutoff, before.len, before.n), "panic", Some(Err(format!("step panicked: {} (cutoff={} len={} n={})", p, before.cutoff, before.len, before.n))));
+            false
+        }
+    }
+}
+fn hist_step_q(q: &mut Q, beta: f64, label: &str, tr: &mut Tracker) -> bool {
+    let before = obs_q(q);
+    match catch(|| {
+        q.timestep(beta);
+    }) {
+        Ok(()) => {
+            let after = obs_q(q);
+            emit_step(label, &before, &after, tr);
+            true
+        }
+        Err(p) => {
+            emit(true, &format!("step {} {} {} {}", label, before.cutoff, before.len, before.n), "panic", Some(Err(format!("step panicked: {} (cutoff={} len={} n={})", p, before.cutoff, before.len, before.n))));
+            false
+        }
+    }
+}
+
+/// how the partner that holds the larger cutoff got its container: tag for the input distribution
+fn partner_tag(fresh: bool, grew_last: bool) -> &'static str {
+    if fresh {
+        "fresh"
+    } else if grew_last {
+        "after_growing_step"
+    } else {
+        "after_nongrowing_step"
+    }
+}
+
+fn run_history_ising(gen: &mut SplitMix64, nactions: usize, tr: &mut Tracker) {
+    let nv = gen.range(2, 5) as usize;
+    let edges = make_edges(gen, nv, true);
+    let gamma = *gen.pick(&[0.5, 1.0, 2.0]);
+    let h = if gen.chance(1, 4) { *gen.pick(&[-0.5, 0.5]) } else { 0.0 };
+    let (beta_a, beta_b) = (*gen.pick(&[2.0, 4.0, 8.0]), *gen.pick(&[0.5, 1.0, 8.0]));
+    let small = |gen: &mut SplitMix64| 1 + gen.below(3) as usize;
+    let fresh = |gen: &mut SplitMix64, cutoff: usize| G::new_with_rng(edges.clone(), gamma, h, cutoff, SplitMix64::new(gen.next()), None);
+    let ca = if gen.coin() { small(gen) } else { 10 + gen.below(40) as usize };
+    let cb = if gen.coin() { small(gen) } else { 10 + gen.below(40) as usize };
+    let mut a = fresh(gen, ca);
+    let mut b = fresh(gen, cb);
+    // (fresh?, did the last step grow the cutoff?) per object
+    let (mut fa, mut fb, mut ga, mut gb) = (true, true, false, false);
+    for _ in 0..nactions {
+        match gen.below(10) {
+            0..=2 => {
+                let c0 = a.get_cutoff();
+                if !hist_step_g(&mut a, beta_a, "hist-ising-A", tr) {
+                    return;
+                }
+                fa = false;
+                ga = a.get_cutoff() > c0;
+            }
+            3..=4 => {
+                let c0 = b.get_cutoff();
+                if !hist_step_g(&mut b, beta_b, "hist-ising-B", tr) {
+                    return;
+                }
+                fb = false;
+                gb = b.get_cutoff() > c0;
+            }
+            5 | 6 => {
+                // raw public swap, both call directions
+                let (a0, b0) = (obs_g(&a), obs_g(&b));
+                let dir = gen.coin();
+                if a0.cutoff != b0.cutoff {
+                    let tag = if a0.cutoff > b0.cutoff { partner_tag(fa, ga) } else { partner_tag(fb, gb) };
+                    stat(&format!("swap_ising_larger_partner_{}", tag), 1);
+                } else {
+                    stat("swap_ising_equal_cutoffs", 1);
+                }
+                if dir {
+                    a.swap_manager_and_state(&mut b);
+                    emit_swap("ising", &a0, &b0, &obs_g(&a), &obs_g(&b));
+                } else {
+                    b.swap_manager_and_state(&mut a);
+                    emit_swap("ising", &b0, &a0, &obs_g(&b), &obs_g(&a));
+                }
+                // containers are exchanged: so are the "fresh / grew" attributes of what each object holds
+                std::mem::swap(&mut fa, &mut fb);
+                std::mem::swap(&mut ga, &mut gb);
+            }
+            7 => {
+                // partner rebuilt: tiny or generous cutoff (the constructor pre-sizes the container)
+                let c = if gen.coin() { small(gen) } else { a.get_cutoff() + gen.below(30) as usize };
+                b = fresh(gen, c);
+                let o = obs_g(&b);
+                emit(false, &format!("new ising {}", c), &format!("{} {}", o.cutoff, o.len), Some(obj_oracle("fresh", c, &o)));
+                fb = true;
+                gb = false;
+            }
+            8 => {
+                let before = obs_g(&a);
+                let target = before.cutoff + gen.below(6) as usize;
+                a.set_cutoff(target);
+                let after = obs_g(&a);
+                emit(false, &format!("setcut {} {} {}", target, before.cutoff, bits(&before.occ)), &format!("{} {} {}", after.cutoff, after.len, after.n), Some(obj_oracle("set_cutoff", before.cutoff, &after)));
+            }
+            _ => {
+                // conversion after k steps, then keep stepping the converted sampler
+                let g0 = obs_g(&a);
+                let ac = a.clone();
+                match catch(move || ac.into_qmc()) {
+                    Ok(mut q) => {
+                        let q1 = obs_q(&q);
+                        stat(if g0.cutoff > nv { "convert_cutoff_above_nvars" } else { "convert_cutoff_le_nvars" }, 1);
+                        emit_convert(nv, &g0, &q1);
+                        for _ in 0..3 {
+                            if !hist_step_q(&mut q, beta_a, "hist-converted", tr) {
+                                break;
+                            }
+                        }
+                    }
+                    Err(p) => emit(true, &format!("convert {} {} {}", nv, g0.cutoff, bits(&g0.occ)), "panic", Some(Err(format!("into_qmc panicked: {}", p)))),
+                }
+            }
+        }
+    }
+}
+
+fn make_generic(gen_seed: u64, nv: usize, gamma: f64, js: &[f64]) -> Q {
+    let mut q = Q::new_with_state(nv, SplitMix64::new(gen_seed), vec![false; nv], false);
+    for v in 0..nv {
+        q.make_interaction(vec![gamma; 4], vec![v]).unwrap();
+    }
+    for (v, j) in js.iter().enumerate() {
+        q.make_diagonal_interaction_and_offset(vec![-j, *j, *j, -j], vec![v, v + 1]).unwrap();
+    }
+    q
+}
+
+fn run_history_generic(gen: &mut SplitMix64, nactions: usize, tr: &mut Tracker) {
+    let nv = gen.range(1, 4) as usize;
+    let gamma = *gen.pick(&[0.5, 1.0, 2.0]);
+    let js: Vec<f64> = (0..nv - 1).map(|_| *gen.pick(&[-1.0, 0.5, 1.0])).collect();
+    let (beta_a, beta_b) = (*gen.pick(&[2.0, 4.0, 8.0]), *gen.pick(&[0.5, 1.0, 8.0]));
+    let mut a = make_generic(gen.next(), nv, gamma, &js);
+    let mut b = make_generic(gen.next(), nv, gamma, &js);
+    if gen.coin() {
+        a.increase_cutoff_to(10 + gen.below(30) as usize);
+    }
+    let (mut fa, mut fb, mut ga, mut gb) = (true, true, false, false);
+    for _ in 0..nactions {
+        match gen.below(8) {
+            0..=2 => {
+                let c0 = a.get_cutoff();
+                if !hist_step_q(&mut a, beta_a, "hist-generic-A", tr) {
+                    return;
+                }
+                fa = false;
+                ga = a.get_cutoff() > c0;
+            }
+            3 => {
+                let c0 = b.get_cutoff();
+                if !hist_step_q(&mut b, beta_b, "hist-generic-B", tr) {
+                    return;
+                }
+                fb = false;
+                gb = b.get_cutoff() > c0;
+            }
+            4 | 5 => {
+                let (a0, b0) = (obs_q(&a), obs_q(&b));
+                if a0.cutoff != b0.cutoff {
+                    let tag = if a0.cutoff > b0.cutoff { partner_tag(fa, ga) } else { partner_tag(fb, gb) };
+                    stat(&format!("swap_generic_larger_partner_{}", tag), 1);
+                } else {
+                    stat("swap_generic_equal_cutoffs", 1);
+                }
+                if gen.coin() {
+                    a.swap_manager_and_state(&mut b);
+                    emit_swap("generic", &a0, &b0, &obs_q(&a), &obs_q(&b));
+                } else {
+                    b.swap_manager_and_state(&mut a);
+                    emit_swap("generic", &b0, &a0, &obs_q(&b), &obs_q(&a));
+                }
+                std::mem::swap(&mut fa, &mut fb);
+                std::mem::swap(&mut ga, &mut gb);
+            }
+            6 => {
+                b = make_generic(gen.next(), nv, gamma, &js);
+                if gen.coin() {
+                    // generous cutoff, container sized by set_cutoff
+                    b.increase_cutoff_to(a.get_cutoff() + gen.below(20) as usize);
+                }
+                let o = obs_q(&b);
+                emit(false, &format!("idle fresh-generic {} {} {}", o.cutoff, o.len, o.n), &format!("{} {} {}", o.cutoff, o.len, o.n), Some(obj_oracle("fresh", nv, &o)));
+                fb = true;
+                gb = false;
+            }
+            _ => {
+                let before = obs_q(&a);
+                let target = before.cutoff + gen.below(6) as usize;
+                a.increase_cutoff_to(target);
+                let after = obs_q(&a);
+                emit(false, &format!("setcut {} {} {}", target, before.cutoff, bits(&before.occ)), &format!("{} {} {}", after.cutoff, after.len, after.n), Some(obj_oracle("increase_cutoff_to", before.cutoff, &after)));
+            }
+        }
+    }
+}
+
 fn run_tempering(gen: &mut SplitMix64, parallel: bool) {
     use qmc::sse::parallel_tempering::*;
     let nv = gen.range(2, 5) as usize;
@@ -360,6 +634,8 @@ fn main() {
         }
         run_generic(&mut gen, steps, true, &mut tr);
         run_generic(&mut gen, steps, false, &mut tr);
+        run_history_ising(&mut gen, steps, &mut tr);
+        run_history_generic(&mut gen, steps, &mut tr);
         if rep % 3 == 0 {
             run_tempering(&mut gen, false);
             run_tempering(&mut gen, true);
